@@ -1138,7 +1138,13 @@ class Parser:
             # After skip_whitespace() the NEWLINE is consumed and current() is FENCE_OPEN.
             # The normal INDENT-gated path would leave children empty, silently dropping
             # the literal zone (I1 violation). Parse it here into a bare-key Assignment.
-            if self.current().type == TokenType.FENCE_OPEN and fence_child_indent is None:
+            # Issue #259: a zone written at the block key's own indentation directly after the
+            # header is the block's child; a zone indented LESS than the key belongs to an ancestor.
+            if (
+                self.current().type == TokenType.FENCE_OPEN
+                and fence_child_indent is None
+                and self.current().column - 1 >= block_indent
+            ):
                 lzv = self.parse_literal_zone()
                 children.append(
                     Assignment(
